@@ -142,13 +142,16 @@ class Terms:
         base = self.of_local(pl.local, depth + 1)
         for p in pl.proj:
             if p[0] == "deref":
-                base = ("deref", base)
+                # *&x is x (reborrows, and arguments bound by assignment when a helper is spliced into its caller)
+                # (only in bodies that received spliced code: elsewhere the terms - which key rules/justified.json - stay as they were)
+                base = base[1] if (getattr(self.body, "spliced", False) and isinstance(base, tuple) and len(base) == 2 and base[0] == "ref") \
+                    else ("deref", base)
             elif p[0] == "field":
                 # field 0 of a checked-op tuple / ControlFlow payload is transparent
                 if isinstance(base, tuple) and base and base[0] in ("Add", "Sub", "Mul", "Shl", "Shr") and p[1] == 0:
                     continue
                 if isinstance(base, tuple) and base and base[0] in ("okp", "errp") and p[1] == 0:
-                    base = (base[0][:-1], base[1])
+                    base = _payload(base[0][:-1], base[1])
                     continue
                 base = ("field", p[2] if p[2] is not None else p[1], base)
             elif p[0] == "downcast":
@@ -175,6 +178,35 @@ class Terms:
                 return ("fn", op.fn.name)
             return ("constval", op.s)
         return self.of_place(op.place, depth)
+
+
+def _payload(which, x):
+    """`ok(x)` / `err(x)`: the payload `?` extracts from x.  When x is visibly built as Ok(p) / Err(p) (the spliced-in body of
+    a helper that returns a Result) the payload is p itself; alternatives of a phi that cannot be of that variant drop out."""
+    want = "::Ok" if which == "ok" else "::Err"
+    other = "::Err" if which == "ok" else "::Ok"
+
+    def one(t):
+        if isinstance(t, tuple) and t and t[0] == "agg" and isinstance(t[1], str) and t[1].endswith("Result" + want) and len(t[2]) == 1:
+            return t[2][0]
+        if isinstance(t, tuple) and t and t[0] == "agg" and isinstance(t[1], str) and t[1].endswith("Result" + other):
+            return None
+        if which == "ok" and isinstance(t, tuple) and t and t[0] == "call" and str(t[1]).endswith("from_residual"):
+            return None
+        return (which, t)
+
+    if isinstance(x, tuple) and len(x) == 2 and x[0] == "phi" and isinstance(x[1], tuple) and x[1] and not isinstance(x[1][0], str):
+        alts = [one(a) for a in x[1]]
+        if any(isinstance(a, tuple) and a and a[0] == which for a in alts if a is not None):
+            return (which, x)
+        alts = [a for a in alts if a is not None]
+        if len(alts) == 1:
+            return alts[0]
+        if alts:
+            return ("phi", tuple(sorted(set(alts), key=repr)))
+        return (which, x)
+    r = one(x)
+    return r if r is not None else (which, x)
 
 
 class PosTerms(Terms):
@@ -251,7 +283,7 @@ def term_atoms(t, out=None):
     """Leaves of a term: calls, args, constants."""
     if out is None:
         out = []
-    if not isinstance(t, tuple):
+    if not isinstance(t, tuple) or not t:
         return out
     if t and t[0] in ("call", "arg", "const", "bytes", "constval", "fn", "undef"):
         out.append(t)
